@@ -7,12 +7,13 @@ def E(name, src, model=None, quick=None, thorough=None, **kw):
 
 PROPS = {
     "C01": dict(
-        lean_props=["H4.Props.C01"],
+        lean_props=["H4.Props.C01", "H4.Props.C01Ext"],
         engines=[
             E("elem", "e_elem.c", model="elem", quick=dict(cases=1200, chunk=40), thorough=dict(cases=20000, seeds=8, chunk=100), wrap=True),
+            E("ext", "e_ext.c", model="ext", quick=dict(cases=800, chunk=40), thorough=dict(cases=10000, seeds=8, chunk=100)),
         ],
         trusted_base=["directory encoding on disk (DD blocks, tag tree) is represented by its extents only: C12/C02",
-                      "external-file, compressed and chunked elements are not part of this engine (C03/C04/C05)",
+                      "compressed and chunked elements are not part of these engines (C03/C04/C05); for external elements (engine ext) the stdio stream mode and the file-name resolution (HXsetdir/HXsetcreatedir) are not modelled",
                       "stdio interposition (ld --wrap) used by the engine for the uninitialised-byte regression oracle"],
         assumptions=["stdio stream = byte array, a gap created by writing past the end reads as zeros; single-threaded; all offsets and lengths within int32 (the model is unbounded)"],
     ),
